@@ -36,7 +36,7 @@ import (
 
 type opFn func(args []string) []string
 
-var ops = map[string]opFn{"hist": runHist, "salgo": runSAlgo}
+var ops = map[string]opFn{"hist": runHist, "salgo": runSAlgo, "fwdmax": runFwdMax}
 
 func main() {
 	flag.Parse()
@@ -60,6 +60,11 @@ func main() {
 	g := hx.NewGen(*hx.Seed)
 	if hx.Want("hist") {
 		genHist(g, out)
+	}
+	if hx.Want("fwdmax") {
+		for i, noup := range []string{"0", "1"} {
+			out.Case(fmt.Sprintf("fm%d", i), "fwdmax", []string{noup}, runFwdMax([]string{noup}))
+		}
 	}
 	if hx.Want("salgo") {
 		for i, noup := range []string{"0", "1"} {
@@ -807,6 +812,108 @@ func runSAlgo(args []string) (res []string) {
 					return []string{"diff:" + hx.HexS(fmt.Sprintf("%s signer, algorithm %q: the signature does not verify under the signer's key", s.PublicKey().Type(), alg))}
 				}
 			}
+		}
+	}
+	return []string{"ok"}
+}
+
+// ---------------------------------------------------------------- raw requests at the size bound
+
+// fwdmax: raw requests whose reply is one byte below, exactly at, and one byte above the 16 MiB bound
+// of the shim's framing: the first two come back byte for byte, the third is an error (not a crash,
+// not a hang).  args: noup 0|1      output: ok | diff:<hex of what differs>
+func runFwdMax(args []string) (res []string) {
+	defer func() {
+		if r := recover(); r != nil {
+			res = []string{"crash:" + hx.HexS(fmt.Sprint(r))}
+		}
+	}()
+	dir, err := os.MkdirTemp("", "fwdmax")
+	if err != nil {
+		panic(err)
+	}
+	defer os.RemoveAll(dir)
+	sock := dir + "/a.sock"
+	ln, err := net.Listen("unix", sock)
+	if err != nil {
+		panic(err)
+	}
+	defer ln.Close()
+	ring := sshagent.NewKeyring()
+	serve := func(c net.Conn) {
+		defer c.Close()
+		for {
+			var hdr [4]byte
+			if _, err := io.ReadFull(c, hdr[:]); err != nil {
+				return
+			}
+			l := binary.BigEndian.Uint32(hdr[:])
+			if l > 1<<25 {
+				return
+			}
+			req := make([]byte, l)
+			if _, err := io.ReadFull(c, req); err != nil {
+				return
+			}
+			if len(req) > 0 && req[0] == 200 { // echoed behind 0xAA
+				var out [4]byte
+				binary.BigEndian.PutUint32(out[:], uint32(len(req)+1))
+				c.Write(append(append(out[:], 0xAA), req...))
+				continue
+			}
+			buf := append(append([]byte{}, hdr[:]...), req...)
+			sshagent.ServeAgent(ring, oneFrame{strings.NewReader(string(buf)), c})
+		}
+	}
+	go func() {
+		for {
+			c, err := ln.Accept()
+			if err != nil {
+				return
+			}
+			go serve(c)
+		}
+	}()
+	for _, replyLen := range []int{1<<24 - 1, 1 << 24, 1<<24 + 1} {
+		shim, err := shimagent.New(shimagent.Option{Address: sock, NoUpstream: args[0] == "1"})
+		if err != nil {
+			return []string{"diff:" + hx.HexS("construction failed")}
+		}
+		req := make([]byte, replyLen-1)
+		req[0] = 200
+		for i := 1; i < len(req); i += 4099 {
+			req[i] = byte(i)
+		}
+		type fr struct {
+			resp []byte
+			err  error
+		}
+		ch := make(chan fr, 1)
+		go func() {
+			defer func() {
+				if r := recover(); r != nil {
+					ch <- fr{nil, fmt.Errorf("panic: %v", r)}
+				}
+			}()
+			resp, err := shim.Forward(req)
+			ch <- fr{resp, err}
+		}()
+		var r fr
+		select {
+		case r = <-ch:
+		case <-time.After(60 * time.Second):
+			return []string{"diff:" + hx.HexS(fmt.Sprintf("a raw request with a reply of %d bytes does not return", replyLen))}
+		}
+		shim.Close()
+		if r.err != nil && strings.HasPrefix(r.err.Error(), "panic") {
+			return []string{"crash:" + hx.HexS(r.err.Error())}
+		}
+		if replyLen <= 1<<24 {
+			if r.err != nil || len(r.resp) != replyLen || r.resp[0] != 0xAA || !bytes.Equal(r.resp[1:], req) {
+				return []string{"diff:" + hx.HexS(fmt.Sprintf("a reply of %d bytes (within the bound) is not relayed byte for byte: error %v, %d bytes", replyLen, r.err, len(r.resp)))}
+			}
+		} else if r.err == nil {
+			return []string{"diff:" + hx.HexS(fmt.Sprintf("a reply of %d bytes (above the bound) is accepted", replyLen))}
 		}
 	}
 	return []string{"ok"}
